@@ -45,7 +45,7 @@ pub(crate) mod kani_verif {
     #[kani::proof]
     #[kani::stub(zeroize::optimization_barrier, no_barrier)]
     #[kani::stub(<[u8; 32] as tinyvec::Array>::default, fast_default)]
-    #[kani::unwind(70)]
+    #[kani::unwind(36)]
     fn c08_seed_derive_n32() {
         check_seed_derive::<32>();
     }
@@ -53,7 +53,7 @@ pub(crate) mod kani_verif {
     #[kani::proof]
     #[kani::stub(zeroize::optimization_barrier, no_barrier)]
     #[kani::stub(<[u8; 32] as tinyvec::Array>::default, fast_default)]
-    #[kani::unwind(70)]
+    #[kani::unwind(36)]
     fn c08_seed_derive_n24() {
         check_seed_derive::<24>();
     }
@@ -61,7 +61,7 @@ pub(crate) mod kani_verif {
     #[kani::proof]
     #[kani::stub(zeroize::optimization_barrier, no_barrier)]
     #[kani::stub(<[u8; 32] as tinyvec::Array>::default, fast_default)]
-    #[kani::unwind(70)]
+    #[kani::unwind(36)]
     fn c08_seed_derive_n16() {
         check_seed_derive::<16>();
     }
